@@ -9,6 +9,7 @@ from ..ref import ws as refws
 from ..ref import http as refhttp
 
 LEVEL = 'exploration'
+TECHNIQUE = 'runtime monitoring: strict request parser and reactive reply generator with ground-truth expectations'
 BUDGET_S = {'quick': 30, 'thorough': 200}
 REQUIRED = {'all': ['request.parsed', 'request.keys_compared', 'reply.judged', 'reply.expect_ready', 'reply.expect_rejected',
                     'reply.expect_protocol_error']}
